@@ -93,6 +93,9 @@ func (t memTransport) RoundTrip(req *http.Request) (*http.Response, error) {
 	sreq.RemoteAddr = "192.0.2.1:1234"
 	rec := httptest.NewRecorder()
 	t.h.ServeHTTP(rec, sreq)
+	// what net/http's server and transport do between them: the rest of a request body the handler did
+	// not read is consumed (pkg/client feeds the body through a pipe and waits for its writer to finish)
+	io.Copy(io.Discard, sreq.Body)
 	sreq.Body.Close()
 	res := rec.Result()
 	res.Request = req
